@@ -184,6 +184,10 @@ pub trait Kind: Sized + 'static {
     fn internal_roots<'id>(_m: &<Self::F as Function>::Manager<'id>) -> usize {
         0
     }
+    /// the printed trees of the internal roots (one entry per reference held)
+    fn internal_root_trees<'id>(_m: &<Self::F as Function>::Manager<'id>) -> Vec<String> {
+        Vec::new()
+    }
     /// expected table of `restrict(f, cube)`; `plain` is the cofactor of `f` w.r.t. the cube's
     /// literals (the B(C)DD reading). ZBDDs override this with their documented reading.
     fn restrict_expected(_f: &TT, _cube: &TT, plain: TT) -> TT {
@@ -274,7 +278,10 @@ impl<K: Kind> Bf<K> {
                     }
                 }
                 let s = self.tree_of(&f);
-                self.tt.insert(name.to_string(), expected.unwrap_or(actual));
+                // (after a mismatch the actual table is remembered, so one wrong result is
+                // reported once and not again by every later comparison)
+                let _ = expected;
+                self.tt.insert(name.to_string(), actual);
                 self.h.insert(name.to_string(), f);
                 s
             }
@@ -786,6 +793,44 @@ impl<K: Kind> Scenario for Bf<K> {
                 }
                 inner.to_string()
             }
+            "nodes" => self.mref().with_manager_shared(|m| m.num_inner_nodes()).to_string(),
+            "dump" => {
+                // all stored inner nodes with their reference counts, sorted; oracle (C05): the
+                // count of a node = live handles + stored parent edges (+ kind-internal roots)
+                match self.do_audit(ctx) {
+                    None => "audit-failed".into(),
+                    Some(info) => {
+                        let mut expected: HashMap<String, usize> = HashMap::new();
+                        for f in self.h.values() {
+                            let (root, inner) = f.with_manager_shared(|m, e| (K::tree(m, e), matches!(m.get_node(e), oxidd::Node::Inner(_))));
+                            if inner {
+                                *expected.entry(strip_neg(&root)).or_insert(0) += 1;
+                            }
+                        }
+                        for (_, t, _) in &info.nodes {
+                            for c in child_trees(t) {
+                                if c.contains('(') {
+                                    *expected.entry(strip_neg(&c)).or_insert(0) += 1;
+                                }
+                            }
+                        }
+                        let internal = self.mref().with_manager_shared(|m| K::internal_root_trees(m));
+                        for t in internal {
+                            *expected.entry(strip_neg(&t)).or_insert(0) += 1;
+                        }
+                        let mut out: Vec<String> = Vec::new();
+                        for (l, t, rc) in &info.nodes {
+                            let e = *expected.get(t).unwrap_or(&0);
+                            if e != *rc {
+                                ctx.fail("ref-count", &format!("node {} at level {} reports ref_count {} but {} references exist (live handles + stored parent edges + internal roots)", t, l, rc, e));
+                            }
+                            out.push(format!("{}:{}", t, rc));
+                        }
+                        out.sort();
+                        format!("{} {}", out.len(), out.join(" | "))
+                    }
+                }
+            }
             "audit" => match self.do_audit(ctx) {
                 Some(info) => {
                     // reference counts (C05): rc = handles + stored parent edges (+ internal)
@@ -1045,4 +1090,40 @@ pub fn nat_shl_hex(base: u128, shift: u32) -> String {
     // base << r fits in u128 for the bases used here (base < 2^64)
     let head = if base.leading_zeros() >= r { format!("{:x}", base << r) } else { format!("{:x}{:x}", base >> (128 - r), base << r) };
     format!("0x{}{}", head, "0".repeat(q as usize))
+}
+
+/// strip a leading complement mark
+pub fn strip_neg(t: &str) -> String {
+    t.trim_start_matches('~').to_string()
+}
+
+/// the printed children of a printed node `(v<k> <c0> <c1> ...)`
+pub fn child_trees(t: &str) -> Vec<String> {
+    let t = t.trim_start_matches('~');
+    let inner = &t[1..t.len() - 1];
+    let mut parts = Vec::new();
+    let mut depth = 0;
+    let mut cur = String::new();
+    for ch in inner.chars() {
+        match ch {
+            '(' => {
+                depth += 1;
+                cur.push(ch);
+            }
+            ')' => {
+                depth -= 1;
+                cur.push(ch);
+            }
+            ' ' if depth == 0 => {
+                if !cur.is_empty() {
+                    parts.push(std::mem::take(&mut cur));
+                }
+            }
+            _ => cur.push(ch),
+        }
+    }
+    if !cur.is_empty() {
+        parts.push(cur);
+    }
+    parts.into_iter().skip(1).collect()
 }
